@@ -157,6 +157,7 @@ impl Display for TypeAttribute {
         match self {
             TypeAttribute::Subtype => write!(f, "subtype"),
             TypeAttribute::Element => write!(f, "element"),
+            TypeAttribute::Base => write!(f, "base"),
         }
     }
 }
